@@ -70,9 +70,30 @@ fn case_run(src: &mut Src, st: &mut Stats, _env: &Env) -> CaseResult {
         6 => src.pick(&["s", "s2", "strs[-1]", "objs[0].s", "join('\n', strs)", "to_string(nums)", "type(@)"]).to_string(),
         _ => "@".to_string(),
     };
+    let expr = if src.chance(60) { src.pick(&["s", "strs[1]", "rows[-1].name", "@", "length(rows)", "rows[*].name | [0]", "join('\n', strs)", "pad"]).to_string() } else { expr };
     let expr = expr.replace('\u{0}', "0");
     // input
-    let (input, input_is_json): (Vec<u8>, bool) = match src.below(8) {
+    let big = src.chance(40);
+    let (input, input_is_json): (Vec<u8>, bool) = if big {
+        // large inputs: read-block boundaries inside multi-byte characters, long string results
+        let pad = src.below(64);
+        let unit = *src.pick(&["é", "日本", "😀", "€", "x"]);
+        let mut rows = vec![];
+        let target = 15_000 + src.below(60_000);
+        let mut size = 0usize;
+        let mut i = 0;
+        while size < target {
+            let name = format!("{}{}", unit.repeat(1 + i % 9), i);
+            size += name.len() + 30;
+            rows.push(json!({"id": i, "name": name}));
+            i += 1;
+        }
+        let tail_len = *src.pick(&[10usize, 1000, 1023, 1024, 1025, 2048, 5000]);
+        let long_s = format!("first line\nsecond {}\n{}", unit, "t".repeat(tail_len));
+        let doc = json!({"pad": "p".repeat(pad), "rows": rows, "s": long_s, "strs": ["a\nb", long_s.clone()], "nums": [1, 2]});
+        (doc.to_string().into_bytes(), true)
+    } else {
+        match src.below(8) {
         0 | 1 | 2 => (schema_doc(src).to_json().into_bytes(), true),
         3 => (gen_doc(src, &DocOpts::default()).to_json().into_bytes(), true),
         4 => {
@@ -82,6 +103,7 @@ fn case_run(src: &mut Src, st: &mut Stats, _env: &Env) -> CaseResult {
         5 => (src.pick(&["", " ", "{", "[1,", "nul", "{\"a\":}", "[1 2]", "'x'", "{\"a\":1}}", "01", "1e999", "\"\\ud800\""]).as_bytes().to_vec(), false),
         6 => (vec![b'"', 0xff, 0xfe, b'"'], false),
         _ => (b"{\"s\":\"\\u00e9\\n\\ud83d\\ude00\",\"n\":18446744073709551615,\"big\":123456789012345678901234567890,\"f\":1.0,\"neg\":-0.0}".to_vec(), true),
+        }
     };
     let _ = input_is_json;
     let dir = tmp_dir();
